@@ -253,6 +253,8 @@ type burstJ struct {
 	Errors   map[string]int `json:"errors"` // error class -> records that reached the error stream
 	Probes   int            `json:"probes"`
 	Done     bool           `json:"done"`
+	// tail cases: bad entries at the end of the file through the real startScanEngine
+	ExitDelayUS int `json:"exit_delay_us"`
 }
 
 type countWriter struct {
@@ -357,6 +359,79 @@ func mkBurst(caseSeed int64, engine string) burstJ {
 	return c
 }
 
+// recLogger is the logger of a command as startScanEngine sees it: it counts the error records by class; like a real
+// logger writing to a terminal it takes a moment per record.
+type recLogger struct {
+	mu     sync.Mutex
+	errors map[string]int
+	delay  time.Duration
+}
+
+func (l *recLogger) Error(err error) {
+	time.Sleep(l.delay)
+	l.mu.Lock()
+	l.errors[tgt.ClassName[tgt.ErrClass(err)]]++
+	l.mu.Unlock()
+}
+
+func (l *recLogger) LogResults(ctx context.Context, results <-chan scan.Result) {
+	for {
+		select {
+		case <-ctx.Done():
+			return
+		case _, ok := <-results:
+			if !ok {
+				return
+			}
+		}
+	}
+}
+
+// mkTail: bad entries at the END of a pairs file through the real startScanEngine (logger goroutines, exit delay,
+// cancellation) of the application scans with an exit delay of 0..5 ms: every bad entry must still be logged.
+func mkTail(caseSeed int64) burstJ {
+	tgt.Settle(baseGoroutines)
+	r := hlib.NewRand(caseSeed)
+	c := burstJ{Kind: "burst", CaseSeed: caseSeed, Engine: "start", Cmd: "generic", NBad: map[string]int{}, Errors: map[string]int{}}
+	c.ExitDelayUS = []int{0, 0, 1000, 5000}[r.Intn(4)]
+	base := uint32(r.Uint64())
+	var ls []tgt.Line
+	for i := 0; i < 3; i++ {
+		ls = append(ls, tgt.RandLine(r, "valid", base+uint32(r.Intn(64))))
+		c.NValid++
+	}
+	nbad := 120 + r.Intn(140)
+	classes := []string{"badip", "badport", "noip", "noport"}
+	cause := map[string]int{"badip": tgt.EIP, "noip": tgt.EIP, "badport": tgt.EPort, "noport": tgt.EPort}
+	for i := 0; i < nbad; i++ {
+		k := classes[r.Intn(len(classes))]
+		ls = append(ls, tgt.RandLine(r, k, base+uint32(r.Intn(64))))
+		c.NBad[tgt.ClassName[cause[k]]]++
+	}
+	opts := &command.VerifTargetOpts{}
+	opts.IPFile = tgt.WriteTemp(tmpDir, fmt.Sprintf("t%d.jsonl", caseSeed&0xffff), tgt.FileText(ls))
+	defer os.Remove(opts.IPFile)
+	ctx, cancel := context.WithCancel(context.Background())
+	defer cancel()
+	cs := &countScanner{}
+	lg := &recLogger{errors: c.Errors, delay: 100 * time.Microsecond}
+	fin := make(chan error, 1)
+	go func() {
+		fin <- command.VerifStartScanEngine(ctx, command.VerifGenericScanEngine(ctx, opts, 4, cs), lg, time.Duration(c.ExitDelayUS)*time.Microsecond)
+	}()
+	select {
+	case <-fin:
+		c.Done = true
+	case <-time.After(20 * time.Second):
+	}
+	lg.mu.Lock()
+	defer lg.mu.Unlock()
+	cs.mu.Lock()
+	c.Probes = cs.n
+	cs.mu.Unlock()
+	return c
+}
+
 func main() {
 	out := flag.String("out", "cases.jsonl", "output file")
 	seed := flag.Int64("seed", 1, "seed")
@@ -377,7 +452,9 @@ func main() {
 		kind, rest, _ := strings.Cut(*one, ":")
 		var cs int64
 		fmt.Sscan(rest, &cs)
-		if kind == "burst-generic" || kind == "burst-packet" {
+		if kind == "burst-start" {
+			w.Put(mkTail(cs))
+		} else if kind == "burst-generic" || kind == "burst-packet" {
 			w.Put(mkBurst(cs, strings.TrimPrefix(kind, "burst-")))
 		} else if kind == "stages" {
 			w.Put(mkStagesCase(cs))
@@ -395,5 +472,8 @@ func main() {
 	}
 	for i := 0; i < *nburst; i++ {
 		w.Put(mkBurst(r.Int63(), []string{"generic", "packet"}[i%2]))
+	}
+	for i := 0; i < *nburst; i++ {
+		w.Put(mkTail(r.Int63()))
 	}
 }
